@@ -17,7 +17,7 @@ type c16 struct{ base }
 
 func init() {
 	runner.Register(&c16{base{id: "C16", level: "exploration",
-		rule: "R1 exhaustive: all 573 reserved words x 3 letter cases x every bare-name position {comparison left/right, function argument, BETWEEN subject and bound, IN subject and member, head of a dotted / indexed path, SET target, SET source, REMOVE / ADD / DELETE target, if_not_exists / list_append argument} must be rejected; converse: the same positions with '#alias -> reserved word' and with 200 non-reserved names must be accepted. R2/R3 exhaustive: every relation between supplied and used placeholder sets over 4 value names and 4 attribute names that are prefixes of one another (:a :ab :abc :b / #n #na #nab #m): 16x16 per kind, on Scan filter, Query, PutItem / DeleteItem condition and UpdateItem, both adapters: accepted iff supplied = used. R4 malformed placeholder keys. R5 key conditions: the legal shapes must be accepted, the illegal ones rejected. R6 batch: neither/both of put and delete, sizes 24/25/26/50 over 1-3 tables. non-trivial = the request breaks exactly one rule or none; distinct by (rule, position/configuration).",
+		rule: "R1 exhaustive: all 573 reserved words x 3 letter cases x every bare-name position {comparison left/right, function argument, BETWEEN subject and bound, IN subject and member, head of a dotted / indexed path, SET target, SET source, REMOVE / ADD / DELETE target, if_not_exists / list_append argument} must be rejected; converse: the same positions with '#alias -> reserved word' and with 200 non-reserved names must be accepted. R2/R3 exhaustive: every relation between supplied and used placeholder sets over 4 value names and 4 attribute names, two pools each (letters :a :ab :abc :b / #n #na #nab #m, and digit-first / underscore / mixed case :0 :01 :_ :A1 / #0 #01 #_ #A1; two names in each pool are prefixes of another): 16x16 per kind and pool, on Scan filter, Query, PutItem / DeleteItem condition and UpdateItem, both adapters: accepted iff supplied = used. R4 malformed placeholder keys. R5 key conditions: the legal shapes must be accepted, the illegal ones rejected. R6 batch: neither/both of put and delete, sizes 24/25/26/50 over 1-3 tables. non-trivial = the request breaks exactly one rule or none; distinct by (rule, position/configuration).",
 		assumptions: append([]string{"the frozen 573-word reserved list (refmodel/reserved.go) equals DynamoDB's"}, commonAssumptions...)}})
 }
 
@@ -86,7 +86,7 @@ func init() {
 const c16WordsPerCase = 20
 
 func (p *c16) NumCases(tier string) int {
-	return (len(refmodel.ReservedWords)+c16WordsPerCase-1)/c16WordsPerCase + 1 + 4 + 1 + 2 + 2
+	return (len(refmodel.ReservedWords)+c16WordsPerCase-1)/c16WordsPerCase + 1 + 8 + 1 + 2 + 2
 }
 
 func evalExpr(expr string, update bool, names map[string]string, values val.Item, item val.Item) (string, string, string) {
@@ -183,8 +183,10 @@ func (p *c16) nonReserved(x *res, ctx *runner.Ctx) {
 	}
 }
 
-var c16ValNames = []string{":a", ":ab", ":abc", ":b"}
-var c16AttrNames = []string{"#n", "#na", "#nab", "#m"}
+// two pools per kind: letters only, and digit-first / underscore / mixed-case names (what the SDK expression
+// builders emit: #0, #1, :0 ...); within each pool two names are prefixes of another one
+var c16ValPools = [][]string{{":a", ":ab", ":abc", ":b"}, {":0", ":01", ":_", ":A1"}}
+var c16AttrPools = [][]string{{"#n", "#na", "#nab", "#m"}, {"#0", "#01", "#_", "#A1"}}
 
 func subsetOf(names []string, mask int) []string {
 	out := []string{}
@@ -196,9 +198,13 @@ func subsetOf(names []string, mask int) []string {
 	return out
 }
 
-func (p *c16) placeholders(x *res, adapter string, kind string, ctx *runner.Ctx) {
+func (p *c16) placeholders(x *res, adapter string, kind string, pool int, ctx *runner.Ctx) {
 	spec := mon.SpecHashOnly("tbl16")
-	attrOf := map[string]string{"#n": "p", "#na": "q", "#nab": "r", "#m": "s"}
+	c16ValNames, c16AttrNames := c16ValPools[pool], c16AttrPools[pool]
+	attrOf := map[string]string{}
+	for i, n := range c16AttrNames {
+		attrOf[n] = []string{"p", "q", "r", "s"}[i]
+	}
 	for used := 0; used < 16; used++ {
 		for supplied := 0; supplied < 16; supplied++ {
 			var usedNames []string
@@ -272,7 +278,7 @@ func (p *c16) placeholders(x *res, adapter string, kind string, ctx *runner.Ctx)
 				ctx.Trace("%s placeholders %s", adapter, op.String())
 				got := cl.Do(op)
 				x.r.Evals++
-				x.fp(true, "R23|%s|%s|%s|%d|%d", adapter, kind, on, used, supplied)
+				x.fp(true, "R23|%s|%s|%d|%s|%d|%d", adapter, kind, pool, on, used, supplied)
 				x.set("classes", got.Class)
 				wit := map[string]interface{}{"adapter": adapter, "op": op, "used": usedNames, "supplied": suppliedNames, "outcome": got}
 				accepted := got.Class == adapt.ClsOK || got.Class == adapt.ClsCondFailed
@@ -541,12 +547,12 @@ func (p *c16) RunCase(ctx *runner.Ctx) runner.CaseResult {
 		}
 	case c == nw:
 		p.nonReserved(x, ctx)
-	case c < nw+5:
+	case c < nw+9:
 		i := c - nw - 1
-		p.placeholders(x, adapt.Adapters[i%2], []string{"values", "names"}[i/2], ctx)
-	case c == nw+5:
+		p.placeholders(x, adapt.Adapters[i%2], []string{"values", "names"}[(i/2)%2], i/4, ctx)
+	case c == nw+9:
 		p.malformedKeys(x, ctx)
-	case c < nw+8:
+	case c < nw+12:
 		p.keyConditions(x, ctx)
 	default:
 		p.batchRules(x, ctx)
